@@ -202,7 +202,16 @@ func (p *process) tryRestart(v any) {
 
 // stopReceiver tells the receiver that failed that it is stopped, before a
 // new one is produced. When the restart budget is exhausted cleanup does that.
+//
+// A panic raised while handling Stopped is contained here: the receiver is
+// going away whatever it does, and letting the panic escape from a recover
+// handler or from cleanup would take the whole process down.
 func (p *process) stopReceiver() {
+	defer func() {
+		if v := recover(); v != nil {
+			slog.Error("actor panicked while handling Stopped", "pid", p.pid, "reason", v)
+		}
+	}()
 	p.context.message = Stopped{}
 	applyMiddleware(p.context.receiver.Receive, p.Opts.Middleware...)(p.context)
 }
@@ -244,8 +253,7 @@ func (p *process) cleanup(cancel context.CancelFunc) {
 	}
 
 	p.inbox.Stop()
-	p.context.message = Stopped{}
-	applyMiddleware(p.context.receiver.Receive, p.Opts.Middleware...)(p.context)
+	p.stopReceiver()
 
 	// Leave the registry and the parent's list of children only now: a parent
 	// that shuts down meanwhile, or another Stop/Poison caller, must still find
